@@ -108,7 +108,8 @@ def values_for(root, names, mode, r_abs):
     v["y"] = LETTER[stat.S_IFMT(rec.st_mode)]
     if stat.S_ISLNK(lst.st_mode):
         v["Y"] = LETTER[stat.S_IFMT(sres[1].st_mode)] if sres[0] == "ok" else ("N" if sres[0] == "nf" else "L")
-        v["l"] = os.readlink(full)
+        # %l like -lname: the link text only where the record the follow mode selects is the link's own
+        v["l"] = os.readlink(full) if stat.S_ISLNK(rec.st_mode) else ""
     else:
         v["Y"] = v["y"]
         v["l"] = ""
@@ -146,7 +147,8 @@ def run(ctx):
                 continue
             if ent and (root.endswith("//") or root.endswith("/.")) and any(it[0] == "d" and it[1] in "hP" for it in items):
                 continue
-            if not ent and root != root.rstrip("/.") and any(it[0] == "d" and it[1] in "fh" for it in items):
+            # outside the property's quantifier (starting points ending in "/." or "/.."): %f/%h of the starting point itself
+            if not ent and root.endswith("/.") and any(it[0] == "d" and it[1] in "fh" for it in items):
                 continue
             fmt = show(items)
             path = vals["p"]
